@@ -84,6 +84,19 @@ func (e *C14) one(ctx *core.Ctx) {
 		rsB.Status.Conditions = append(rsB.Status.Conditions, v1.ExtendedDaemonSetReplicaSetCondition{Type: v1.ConditionTypeCanaryFailed, Status: corev1.ConditionTrue, LastTransitionTime: metav1.NewTime(now.Add(-time.Second))})
 	}
 	withC := r.Intn(2) == 0
+	// a replica set that is being deleted behind a finalizer (foreground deletion) still exists, still has pods
+	// and still publishes its status: it counts like any other
+	switch r.Intn(8) {
+	case 0:
+		dt := metav1.NewTime(now.Add(-5 * time.Second))
+		rsA.DeletionTimestamp, rsA.Finalizers = &dt, []string{"foregroundDeletion"}
+		ctx.Count("C14.points-with-terminating-replicaset")
+	case 1:
+		dt := metav1.NewTime(now.Add(-5 * time.Second))
+		rsC.DeletionTimestamp, rsC.Finalizers = &dt, []string{"foregroundDeletion"}
+		rsC.Status.Current, rsC.Status.Ready, rsC.Status.Available = 2, 1, 1
+		ctx.Count("C14.points-with-terminating-replicaset")
+	}
 	all := []*v1.ExtendedDaemonSetReplicaSet{rsB}
 	if sameActive {
 		eds.Status.ActiveReplicaSet = "foo-b"
